@@ -192,7 +192,7 @@ CHECKS["C05"] = {
             "first push and all_valid from the minimum count. states = distinct observed per-cycle (flags,value) traces; transitions = consumer ticks "
             "checked; non-trivial = histories with several mutations in one cycle or a tick that both adds and removes.",
     "bounds": {"quick": "L<=2 x T=3 (collections), T=5 (TS), T=4 (TSL/TSB), T=6 (TSW); plus L<=3 x T=2", "thorough": "L<=2 x T=4 (collections), T=6 (TS), T=5 (TSL/TSB), T=8 (TSW); plus L<=3 x T=2"},
-    "min_counters": {"quick": {"nontrivial": 100000, "states": 20000, "coll.cases_tsds": 10000}},
+    "min_counters": {"quick": {"nontrivial": 100000, "states": 5000, "coll.cases_tsds": 10000}},
     "assumptions": COMMON_ASSUMPTIONS + [
         "A key erased and added again in the same cycle is the same element (it keeps its contents): the cancelling pair leaves no trace, as the statement says.",
         "For TSW, valid() holds from the first push and the minimum count gates all_valid() — pinned by the repository's own Python suite "
@@ -217,7 +217,7 @@ CHECKS["C04"] = {
             "TSL/TSB the parent is modified iff some child is, children agree between producer, consumer and a consumer bound to the child. "
             "states = distinct observed per-cycle (flags,value) traces; transitions = consumer ticks checked.",
     "bounds": {"quick": "as C05 quick", "thorough": "as C05 thorough"},
-    "min_counters": {"quick": {"nontrivial": 100000, "states": 20000, "flags.cases_ts": 10000}},
+    "min_counters": {"quick": {"nontrivial": 100000, "states": 5000, "flags.cases_ts": 10000}},
     "assumptions": COMMON_ASSUMPTIONS + [
         "Cycles whose only operations are ineffective (removing an absent key) are a don't-care for modified/valid: whether opening a mutation scope is a write is not stated.",
         "In the cycle of an explicit invalidation only validity and value are compared between producer and consumer (the consumer is notified of the invalidation).",
